@@ -287,6 +287,10 @@ class Prover:
             while d[0] == "unop" and d[1] == "Not":
                 truth = not truth
                 d = d[2]
+            if d[0] == "discr" and util.is_call(d[1]) and d[1][1].endswith("<impl [T]>::get") and len(d[1][2]) == 2 and strip(d[1][2][1])[0] != "agg" and v[0] == "is" and v[1] in (0, 1):
+                # s.get(i) is Some exactly when i < s.len()
+                res.append(("Lt" if v[1] == 1 else "Ge", util.numnorm(d[1][2][1]), ("len", util.numnorm(d[1][2][0]))))
+                continue
             if d[0] == "binop" and d[1] in ("Lt", "Le", "Gt", "Ge", "Eq", "Ne"):
                 op = d[1]
                 if not truth:
@@ -346,6 +350,10 @@ class Prover:
             return (t[1], t[1])
         if k == "param":
             tr = self.ty_range_of_local(t[1])
+            if self.body.kind == "Closure" and t[1] == 2:
+                fr = self.from_fn_index_range()
+                if fr is not None:
+                    return fr
             pr = self.w.param_range(self.se.fn, t[1], False)
             return meet(tr, pr) if pr is not None and pr != TOP else tr
         if k == "cast":
@@ -382,6 +390,8 @@ class Prover:
             return self._by_type(t)
         if k == "call":
             n = t[1]
+            if n.endswith("ExactSizeIterator::len"):
+                return self.iter_len(t[2][0], bb, d)
             if n in ("std::iter::Iterator::count",) or n.endswith("as std::iter::Iterator>::count"):
                 l = self.iter_len(t[2][0], bb, d)
                 return (0, l[1])
@@ -710,26 +720,81 @@ class Prover:
         return None
 
     def _chunk_len(self, x, bb):
+        """x is (a component of) a for-loop item that is a chunk yielded by chunks_exact(c):
+        exactly c elements.  The component is found by walking the tuple structure of the
+        item (enumerate: (counter, inner); zip: (left, right)) along x's field path."""
         for lp in util.for_loops(self.ctx, self.se):
             if lp["init_call"] is None:
                 continue
             item = strip(lp["elem"])
-            src = strip(lp["init_call"][2][0])
-            comp = None
-            if x == item:
-                comp = src
-            elif x[0] == "field" and x[1] == item and x[2] == 1 and util.is_call(src) and src[1].endswith("::enumerate"):
-                comp = strip(src[2][0])
-            if comp is not None and util.is_call(comp) and comp[1].split("::")[-1] in ("chunks_exact",):
+            path = []
+            y = x
+            while y != item and y[0] == "field" and isinstance(y[2], int):
+                path.append(y[2])
+                y = y[1]
+            if y != item:
+                continue
+            comp = strip(lp["init_call"][2][0])
+            ok = True
+            for f in reversed(path):
+                while util.is_call(comp) and comp[1].split("::")[-1] in ("into_iter", "by_ref", "copied", "cloned"):
+                    comp = strip(comp[2][0])
+                if util.is_call(comp) and comp[1].endswith("::enumerate") and f == 1:
+                    comp = strip(comp[2][0])
+                elif util.is_call(comp) and comp[1].endswith("::zip") and f in (0, 1):
+                    comp = strip(comp[2][f])
+                else:
+                    ok = False
+                    break
+            if not ok:
+                continue
+            while util.is_call(comp) and comp[1].split("::")[-1] in ("into_iter", "by_ref"):
+                comp = strip(comp[2][0])
+            if util.is_call(comp) and comp[1].split("::")[-1] in ("chunks_exact", "chunks_exact_mut"):
                 c = self.rng(comp[2][1], bb)
                 if c[0] == c[1]:
                     return c
         return None
 
+    def from_fn_index_range(self):
+        """this body is a closure whose only use is as the argument of core::array::from_fn::<T, N>:
+        its index parameter ranges over 0..N"""
+        if getattr(self, "_ffr", "unset") != "unset":
+            return self._ffr
+        self._ffr = None
+        parent = self.body.d.get("parent")
+        pb = self.fb.body(parent) if parent else None
+        if pb is None:
+            return None
+        ns = []
+        made = 0
+        for blk in pb.blocks:
+            for s_ in blk["stmts"]:
+                if s_["k"] == "assign" and s_["rv"]["k"] == "aggregate" and s_["rv"].get("ak") == "closure" and s_["rv"].get("path") == self.se.fn:
+                    made += 1
+        for bi, t in pb.calls():
+            if t.get("resolved") in ("std::array::from_fn", "core::array::from_fn"):
+                ras = t.get("resolved_args", [])
+                cl = [self.fb.ty(a["ty"]) for a in ras if "ty" in a]
+                if any(c.k == "closure" and c.d.get("path") == self.se.fn for c in cl):
+                    n = [a.get("val") for a in ras if "const" in a]
+                    if n and n[0] is not None:
+                        ns.append(int(n[0]))
+            else:
+                # the closure must not be handed to anything else
+                for a in t.get("resolved_args", []):
+                    if "ty" in a:
+                        c = self.fb.ty(a["ty"])
+                        if c.k == "closure" and c.d.get("path") == self.se.fn:
+                            return None
+        if len(ns) == 1 and made == 1 and ns[0] >= 1:
+            self._ffr = (0, ns[0] - 1)
+        return self._ffr
+
     def closure_item_range(self, t):
         """t = field k of the item parameter (param 2) of a closure driven by for_each over
         zip(Range{a,b}, ..) / enumerate(..): range of that component"""
-        if self.body.kind != "Closure" or not (t[0] == "field" and t[1] == ("param", 2)):
+        if self.body.kind != "Closure" or not (t[0] == "field" and t[1] in (("param", 2), ("param", 3))):
             return None
         parent = self.body.d.get("parent")
         pse = self.ctx.flat.run(parent) if parent else None
@@ -738,8 +803,11 @@ class Prover:
         pp = self.w.prover(parent)
         uses = []
         for i in pse.term_info.values():
-            if i.get("k") == "call" and i["name"] == "std::iter::Iterator::for_each":
-                cl = i["locargs"][1] if "locargs" in i else None
+            # for_each(|item| ..): item is param 2; fold(init, |acc, item| ..): item is param 3
+            is_fe = i.get("k") == "call" and i["name"] == "std::iter::Iterator::for_each" and t[1] == ("param", 2)
+            is_fold = i.get("k") == "call" and i["name"].endswith("Iterator>::fold") or i.get("k") == "call" and i["name"] == "std::iter::Iterator::fold"
+            if is_fe or (is_fold and t[1] == ("param", 3)):
+                cl = i["locargs"][1 if is_fe else 2] if "locargs" in i and len(i["locargs"]) > (1 if is_fe else 2) else None
                 if cl is not None and cl[0] == "agg" and cl[1] == "closure" and cl[2] == self.se.fn:
                     uses.append(strip(i["args"][0]))
         # the closure value must not be used anywhere else
@@ -774,6 +842,8 @@ class Prover:
             bt = self.type_of(x[1]) if p is None else None
             if bt is not None:
                 bt = bt.peel_refs()
+                if bt.k == "closure" and x[2] < len(bt.d.get("upvars", [])):
+                    return self.fb.ty(bt.d["upvars"][x[2]])
                 if bt.k == "adt":
                     fs = self.fb.adt_fields(bt.path)
                     if fs and x[2] < len(fs):
@@ -850,11 +920,14 @@ class Prover:
                 return (0, min(l1[1], l2[1]))
             if n == "cycle":
                 return (0, INF)
-            if n in ("chunks_exact", "chunks"):
-                l = self.len_range(a[0], bb, d + 1)
+            if n in ("chunks_exact", "chunks", "chunks_exact_mut", "chunks_mut"):
+                base = a[0]
+                if strip(base)[0] == "mutref":
+                    base = self.se.call_old.get((it[3][:2], 0), base)
+                l = self.len_range(base, bb, d + 1)
                 c = self.rng(a[1], bb)
                 if c[0] >= 1 and l[1] != INF:
-                    return (0, l[1] // c[0] if n == "chunks_exact" else -(-l[1] // c[0]))
+                    return (0, l[1] // c[0] if n.startswith("chunks_exact") else -(-l[1] // c[0]))
                 return (0, l[1])
             if n == "take":
                 s = self.rng(a[1], bb)
@@ -906,6 +979,15 @@ class Prover:
         return None
 
     # ---------------------------------------------------------------- proofs
+    def infeasible(self, bb):
+        """some comparison fact that every path to bb has established cannot hold for the
+        value ranges of its operands: bb is unreachable.  Returns (bool, reason)."""
+        for op, a, b in self.bool_facts(bb):
+            ra, rb = self.rng(a, bb), self.rng(b, bb)
+            if ra[0] > ra[1] or rb[0] > rb[1]:
+                return True, "guard %s %s %s cannot hold here" % (show(a, maxdepth=2), op, show(b, maxdepth=2))
+        return False, ""
+
     def prove_lt(self, a, b, bb):
         """a < b at bb"""
         na, nb = util.numnorm(a), util.numnorm(b)
